@@ -19,6 +19,7 @@ Template directives (each at the start of a line):
   //@ loop <k> [iter <id>]    following lines: invariant/decreases text for the k-th loop (1-based)
   //@ before <source text>    following lines: ghost text inserted before that token sequence
   //@ after <source text>     ... after it
+  //@ after-stmt <source text> ... after the ';' ending the statement that contains it
   //@end
 
 Everything inserted is wrapped in /*G{*/ ... /*}G*/ markers; rewrites N1-N5 are
@@ -156,7 +157,7 @@ class Emitter:
                     parts = rest.split()
                     k = int(parts[0]); it = parts[2] if len(parts) >= 3 and parts[1] == "iter" else None
                     opts["loops"][k] = {"iter": it, "text": []}; cur = opts["loops"][k]["text"]
-                elif key in ("before", "after"):
+                elif key in ("before", "after", "after-stmt"):
                     a = {"where": key, "anchor": rest, "text": []}
                     opts["anchors"].append(a); cur = a["text"]
                 else:
@@ -334,7 +335,17 @@ class Emitter:
             if len(hits) != 1:
                 raise EmitError("lost anchor: %r in %s (%d matches)" % (a["anchor"], rec.qname, len(hits)))
             h = hits[0]
-            off = toks[h].start if a["where"] == "before" else toks[h + len(pat) - 1].end
+            if a["where"] == "before":
+                off = toks[h].start
+            elif a["where"] == "after":
+                off = toks[h + len(pat) - 1].end
+            else:  # after-stmt: after the ';' that ends the statement containing the match
+                q = h
+                while q < end and toks[q].text != ";":
+                    if toks[q].kind == "punct" and toks[q].text in ("(", "[", "{"):
+                        q = match[q]
+                    q += 1
+                off = toks[q].end
             txt = "\n".join(a["text"])
             edits.append((off, off, "\n" + G_OPEN + "\n" + txt + "\n" + G_CLOSE + "\n", "ghost:anchor"))
             rec.clauses.append(("proof@" + a["anchor"], txt))
